@@ -125,7 +125,10 @@ func c14Journal(r *rand.Rand, includes []string) string {
 	return sb.String()
 }
 
-func c14Config(r *rand.Rand) map[string]any {
+// c14Config draws a configuration payload.  withLimits=false (mode "resp"): the include limits
+// are left alone, because a background load that straddles a limits change has no single
+// "state at the moment of the request" to be compared with.
+func c14Config(r *rand.Rand, withLimits bool) map[string]any {
 	v := map[string]any{}
 	if r.IntN(2) == 0 {
 		v["features"] = map[string]any{"diagnostics": r.IntN(4) != 0, "hover": r.IntN(4) != 0, "completion": true, "semanticTokens": r.IntN(4) != 0}
@@ -140,7 +143,7 @@ func c14Config(r *rand.Rand) map[string]any {
 		// a path that does not exist: NewClient's `--version` probe fails fast, the client pointer is replaced
 		v["cli"] = map[string]any{"path": fmt.Sprintf("/nonexistent/hledger-%d", r.IntN(3)), "timeout": 1000 + r.IntN(3)*1000, "enabled": r.IntN(2) == 0}
 	}
-	if r.IntN(3) == 0 {
+	if r.IntN(3) == 0 && withLimits {
 		v["limits"] = map[string]any{"maxIncludeDepth": 1 + r.IntN(60), "maxFileSizeBytes": 1000 + r.IntN(1<<20)}
 	}
 	if r.IntN(3) == 0 {
@@ -228,7 +231,7 @@ func c14GenSched(c *Ctx, mode string) c14Sched {
 			open[d] = false
 			c.Count("op.close")
 		case x < 52:
-			s.Ops = append(s.Ops, c14Op{K: "config", V: c14Config(r)})
+			s.Ops = append(s.Ops, c14Op{K: "config", V: c14Config(r, mode == "race")})
 			pendingCfg++
 			c.Count("op.config")
 		case x < 58 && pendingCfg > 0:
@@ -644,6 +647,7 @@ type c14Resp struct {
 	body     string
 	inflight int
 	overlap  bool
+	diagOff  bool
 	ws       bool
 }
 
@@ -657,6 +661,7 @@ type c14Run struct {
 	started map[protocol.DocumentURI]int
 	overlap map[protocol.DocumentURI]bool
 	opened  map[int]bool
+	diagOff bool // a configuration with features.diagnostics=false has been sent: tasks may end without storing
 	resps   []c14Resp
 	panicked string
 }
@@ -740,7 +745,7 @@ func (r *c14Run) request(i int, kind string, d, l, col int) {
 	case "folding":
 		body = c14Canon(r.srv.FoldingRanges(ctx, &protocol.FoldingRangeParams{TextDocumentPositionParams: protocol.TextDocumentPositionParams{TextDocument: td}}))
 	}
-	r.resps = append(r.resps, c14Resp{op: i, kind: kind, doc: d, body: body, inflight: inflight, overlap: r.overlap[uri], ws: ws})
+	r.resps = append(r.resps, c14Resp{op: i, kind: kind, doc: d, body: body, inflight: inflight, overlap: r.overlap[uri], diagOff: r.diagOff, ws: ws})
 }
 
 // noteTask mirrors HL.Bg.Guard: a change while a task for the same document is in flight
@@ -831,6 +836,11 @@ func c14RunOnce(s *c14Sched, dir string, sequential bool, jitter uint64) (run *c
 			srv.DidClose(ctx, &protocol.DidCloseTextDocumentParams{TextDocument: protocol.TextDocumentIdentifier{URI: run.uris[op.D]}})
 			settle()
 		case "config":
+			if f, ok := op.V["features"].(map[string]any); ok {
+				if d, ok := f["diagnostics"].(bool); ok && !d {
+					run.diagOff = true
+				}
+			}
 			srv.DidChangeConfiguration(ctx, &protocol.DidChangeConfigurationParams{})
 			if cl.gated {
 				pendingCfg++
@@ -911,7 +921,7 @@ func c14RunSched(c *Ctx, s *c14Sched, idx int) map[string]any {
 			break
 		}
 		if len(seq1.resps) != len(run.resps) || len(seq2.resps) != len(run.resps) {
-			diffs = append(diffs, map[string]any{"i": -1, "k": "count", "ws": false, "inflight": 0, "overlap": false, "got": fmt.Sprint(len(run.resps)), "want": fmt.Sprint(len(seq1.resps))})
+			diffs = append(diffs, map[string]any{"i": -1, "k": "count", "ws": false, "inflight": 0, "overlap": false, "diagoff": false, "got": fmt.Sprint(len(run.resps)), "want": fmt.Sprint(len(seq1.resps))})
 			continue
 		}
 		for j, got := range run.resps {
@@ -927,7 +937,7 @@ func c14RunSched(c *Ctx, s *c14Sched, idx int) map[string]any {
 				continue
 			}
 			c.Count("resp.diff-" + got.kind)
-			diffs = append(diffs, map[string]any{"i": got.op, "k": got.kind, "d": got.doc, "ws": got.ws, "inflight": got.inflight, "overlap": got.overlap,
+			diffs = append(diffs, map[string]any{"i": got.op, "k": got.kind, "d": got.doc, "ws": got.ws, "inflight": got.inflight, "overlap": got.overlap, "diagoff": got.diagOff,
 				"got": clip(got.body, 400), "want": clip(seq1.resps[j].body, 400)})
 		}
 	}
